@@ -313,7 +313,7 @@ func extractPushTx() {
 	qf := parse("query.go")
 	var paths []string
 	var jpaths [][2]string
-	thrOp, thrL, thrR, mostCmp := "", "", "", ""
+	thrOp, thrL, thrR, mostCmp, mostSel := "", "", "", "", ""
 	defs := map[string]string{}
 	if fd := funcDecl(qf, "ChainService", "sendTransaction"); fd == nil {
 		fail("query.go: method ChainService.sendTransaction")
@@ -335,6 +335,34 @@ func extractPushTx() {
 					r := ""
 					if len(v.Results) == 1 {
 						r = src(v.Results[0])
+						// `firstRejectWithCode(<the most frequent code>)`: the argument is either the
+						// variable the tally loop selects, or a call of a same-file unexported helper
+						// that contains that loop and returns its selection ("extract function")
+						if c, ok := v.Results[0].(*ast.CallExpr); ok && src(c.Fun) == "firstRejectWithCode" && len(c.Args) == 1 {
+							switch a := c.Args[0].(type) {
+							case *ast.Ident:
+								if a.Name == mostSel && mostSel != "" {
+									r = "firstRejectWithCode(mostRejectedCode)"
+								}
+							case *ast.CallExpr:
+								if h := helperDecl(qf, src(a.Fun)); h != nil && len(a.Args) == 1 && src(a.Args[0]) == "rejectCodes" &&
+									h.Type.Params != nil && len(h.Type.Params.List) == 1 && len(h.Type.Params.List[0].Names) == 1 {
+									param := h.Type.Params.List[0].Names[0].Name
+									ast.Inspect(h.Body, func(n ast.Node) bool {
+										if rs, ok := n.(*ast.RangeStmt); ok && src(rs.X) == param {
+											if cmp, sel, ok := tallyLoop(rs); ok {
+												if last, ok := h.Body.List[len(h.Body.List)-1].(*ast.ReturnStmt); ok &&
+													len(last.Results) == 1 && src(last.Results[0]) == sel {
+													mostCmp, mostSel = cmp, sel
+													r = "firstRejectWithCode(mostRejectedCode)"
+												}
+											}
+										}
+										return true
+									})
+								}
+							}
+						}
 					}
 					paths = append(paths, fmt.Sprintf("(%q, %q)", strings.Join(path, " && "), r))
 					jpaths = append(jpaths, [2]string{strings.Join(path, " && "), r})
@@ -346,9 +374,13 @@ func extractPushTx() {
 					}
 				case *ast.RangeStmt:
 					if src(v.X) == "rejectCodes" {
-						for _, st := range v.Body.List {
-							if i, ok := st.(*ast.IfStmt); ok {
-								mostCmp = src(i.Cond)
+						if cmp, sel, ok := tallyLoop(v); ok {
+							mostCmp, mostSel = cmp, sel
+						} else {
+							for _, st := range v.Body.List {
+								if i, ok := st.(*ast.IfStmt); ok {
+									mostCmp = src(i.Cond)
+								}
 							}
 						}
 					}
@@ -399,6 +431,25 @@ func extractPushTx() {
 						}
 						return false
 					})
+					// the getdata arm: which entries of the peer's getdata make it a replying peer
+					gdCond := ""
+					ast.Inspect(c, func(n ast.Node) bool {
+						cc, ok := n.(*ast.CaseClause)
+						if !ok || len(cc.List) != 1 || src(cc.List[0]) != "*wire.MsgGetData" {
+							return true
+						}
+						ast.Inspect(cc, func(m ast.Node) bool {
+							if is, ok := m.(*ast.IfStmt); ok && gdCond == "" && strings.Contains(src(is.Body), "replies[sp.ID()]") {
+								gdCond = src(is.Cond)
+							}
+							return true
+						})
+						return false
+					})
+					if gdCond == "" {
+						fail("query.go: sendTransaction: getdata arm recording replies[sp.ID()] under a condition")
+					}
+					defs["getdataMatch"] = gdCond
 					if rec < 0 || inc < 0 {
 						fail("query.go: sendTransaction: reject arm recording rejections[sp.ID()] and rejectCodes[...]++")
 					}
@@ -428,6 +479,7 @@ func extractPushTx() {
 	l.def("mostRejectedCmp", "String", fmt.Sprintf("%q", mostCmp), "comparison inside the loop over rejectCodes")
 	l.def("repliesKeyedByPeer", "Bool", defs["repliesFill"]+"", "replies[sp.ID()] = struct{}{} on a getdata naming the tx")
 	l.def("rejectionsKeyedByPeer", "Bool", defs["rejectionsFill"]+"", "rejections[sp.ID()] = err; rejectCodes[err.Code]++ on a reject naming the tx")
+	l.def("getdataMatch", "String", fmt.Sprintf("%q", defs["getdataMatch"]), "condition under which an entry of a peer's getdata makes it a replying peer (and gets it the transaction)")
 	l.def("rejectRequiresReply", "Bool", orFalse(defs["rejectGuard"]), "the reject arm returns before recording anything when the peer is not in `replies` (it never requested the tx)")
 	l.def("rejectClosesPeer", "Bool", orFalse(defs["rejectCloses"]), "after a recorded rejection the peer's sub-query is closed (closer.closeNow())")
 	// queryAllPeers: messages of a peer whose sub-query is closed are not handed to the handler
@@ -490,6 +542,70 @@ func extractPushTx() {
 	l.def("thresholdDen", "Nat", strconv.Itoa(den), "")
 	out["verdictPaths"], out["thresholdOp"], out["threshold"] = jpaths, thrOp, []int{num, den}
 	facts["pushtx"] = out
+}
+
+// helperDecl: the unique function of f with this (lower-case, unqualified) name.
+func helperDecl(f *ast.File, name string) *ast.FuncDecl {
+	if f == nil || name == "" || strings.Contains(name, ".") || !(name[0] >= 'a' && name[0] <= 'z') {
+		return nil
+	}
+	var found *ast.FuncDecl
+	for _, d := range f.Decls {
+		if fd, ok := d.(*ast.FuncDecl); ok && fd.Name.Name == name && fd.Body != nil {
+			if found != nil {
+				return nil
+			}
+			found = fd
+		}
+	}
+	return found
+}
+
+// tallyLoop recognises `for k, v := range m { if v OP best { best = v; sel = k } }` (either
+// operand order) and returns the comparison in the canonical spelling
+// "count OP mostRejectedCount" (value on the left) and the name of the selected-key variable.
+func tallyLoop(rs *ast.RangeStmt) (string, string, bool) {
+	k, kok := rs.Key.(*ast.Ident)
+	v, vok := rs.Value.(*ast.Ident)
+	if !kok || !vok || len(rs.Body.List) != 1 {
+		return "", "", false
+	}
+	is, ok := rs.Body.List[0].(*ast.IfStmt)
+	if !ok || is.Else != nil || is.Init != nil {
+		return "", "", false
+	}
+	b, ok := is.Cond.(*ast.BinaryExpr)
+	if !ok {
+		return "", "", false
+	}
+	best, sel := "", ""
+	for _, st := range is.Body.List {
+		as, ok := st.(*ast.AssignStmt)
+		if !ok || len(as.Lhs) != 1 || len(as.Rhs) != 1 {
+			return "", "", false
+		}
+		switch src(as.Rhs[0]) {
+		case v.Name:
+			best = src(as.Lhs[0])
+		case k.Name:
+			sel = src(as.Lhs[0])
+		default:
+			return "", "", false
+		}
+	}
+	if best == "" || sel == "" {
+		return "", "", false
+	}
+	op := b.Op.String()
+	flip := map[string]string{">": "<", "<": ">", ">=": "<=", "<=": ">="}
+	switch {
+	case src(b.X) == v.Name && src(b.Y) == best:
+	case src(b.X) == best && src(b.Y) == v.Name && flip[op] != "":
+		op = flip[op]
+	default:
+		return "", "", false
+	}
+	return "count " + op + " mostRejectedCount", sel, true
 }
 
 func orFalse(s string) string {
